@@ -54,6 +54,7 @@ def floors(m, tier):
             "recoveries judged": (c.get("recoveries", 0), 80 if q else 1800),
             "fresh-interpreter recoveries": (c.get("fresh_recoveries", 0), 2),
             "corruption cases": (c.get("corruptions", 0), 20 if q else 100),
+            "cases with two corrupt sidecars": (c.get("two_corrupt_sidecars", 0), 2),
             "scenarios": (c.get("scenarios", 0), 6)}
 
 
@@ -112,19 +113,24 @@ def apply_op(writer, al, op):
 def observe(al, target_role, do_next):
     """Recovery oracle body (real code). Runs in a forked / fresh process."""
     from spil import GetFromPaths, FindInPaths, WriteToPaths, Sid
-    out = {"reads": {}, "errors": [], "found": {}}
+    out = {"reads": {}, "errors": [], "found": {}, "records": {}, "reads_noenc": {}}
     g = GetFromPaths()
+    raw = {}
     for role, e in al.items():
         try:
-            out["reads"][role] = dict(g.get_data(e))
+            raw[role] = g.get_data(e)                  # (records are kept as returned until all reads are done)
+            out["reads_noenc"][role] = dict(g.get_data(e, sid_encode=lambda x: None))
         except Exception as ex:
             out["errors"].append("get_data(%s): %r" % (role, ex))
+    for role, r in raw.items():
+        out["reads"][role] = dict(r)
     target = al[target_role]
     par = "/".join(target.split("/")[:-1])
     for s in (par + "/*", target, "/".join(target.split("/")[:4]) + "/**"):
         try:
             out["found"][s] = sorted(str(x) for x in FindInPaths().find(s))
-            list(GetFromPaths().get(s))
+            recs = list(GetFromPaths().get(s))
+            out["records"][s] = sorted((dict(r) for r in recs), key=lambda d: str(d.get("sid")))
         except Exception as ex:
             out["errors"].append("search %s: %r" % (s, ex))
     if do_next:
@@ -370,8 +376,10 @@ def run_corruption(rec, lab, al, args, rng):
     from spil import WriteToPaths, conf
     from pathlib import Path
     arena = Arena(lab)
-    sc = {"name": "corruption", "pre": [("create", "V", {"v": "data"}), ("create", "F1", {"k1": "OLD", "k2": [1, 2, 3], "k3": {"a": "b"}})],
-          "op": ("set", "F1", {"k1": "x"})}
+    pre = [("create", "V", {"v": "data"}), ("create", "F1", {"k1": "OLD", "k2": [1, 2, 3], "k3": {"a": "b"}})]
+    if "P" in al:
+        pre.append(("create", "P", {"k1": "PDATA"}))
+    sc = {"name": "corruption", "pre": pre, "op": ("set", "F1", {"k1": "x"})}
     arena.build(al, sc)
     st, base = faults.fork_run(lambda: observe(al, "F1", False))
     p, _f = lab.trees.path_of(lab.default_config, al["F1"])
@@ -379,6 +387,12 @@ def run_corruption(rec, lab, al, args, rng):
     content = open(side, "rb").read()
     cases = [("truncate", j) for j in range(0, len(content), args["corrupt_step"])]
     cases += [("emptied", 0), ("directory", 0), ("garbage", 0), ("unreadable_EACCES", 0), ("unreadable_EIO", 0), ("nul_bytes", 0)]
+    side_p = None
+    if "P" in al:
+        pp, _f = lab.trees.path_of(lab.default_config, al["P"])
+        side_p = str(conf.get_data_json_path(Path(pp)))
+        if side_p != side:
+            cases += [("two_sidecars_garbage", 0), ("two_sidecars_emptied", 0)]
     for kind, j in cases:
         arena.restore()
         inject_errno = None
@@ -396,6 +410,12 @@ def run_corruption(rec, lab, al, args, rng):
             os.mkdir(side)
         elif kind == "garbage":
             open(side, "wb").write(b"\xff\xfe not json {{{")
+        elif kind == "two_sidecars_garbage":
+            open(side, "wb").write(b"\xff\xfe not json {{{")
+            open(side_p, "wb").write(b"{ not json either")
+        elif kind == "two_sidecars_emptied":
+            open(side, "wb").close()
+            open(side_p, "wb").close()
         elif kind == "nul_bytes":
             open(side, "wb").write(b"\0" * len(content))
         else:
@@ -432,8 +452,28 @@ def run_corruption(rec, lab, al, args, rng):
         r = obs["reads"]["F1"]
         if r != {"sid": al["F1"]}:
             rec.violation("corrupt_sidecar_read_is_not_just_sid", c, repr(r))
+        corrupt_roles = {"F1", "F2"} | ({"P"} if kind.startswith("two_sidecars") else set())
+        corrupt_sids = {al[x] for x in corrupt_roles if x in al}
+        if kind.startswith("two_sidecars"):
+            rec.count("two_corrupt_sidecars")
+            if obs["reads"].get("P") != {"sid": al["P"]}:
+                rec.violation("corrupt_sidecar_read_is_not_just_sid", dict(c, sid=al["P"]), repr(obs["reads"].get("P")))
+        for role in corrupt_roles & set(al):
+            if obs["reads_noenc"].get(role) != {} and obs["reads"].get(role) == {"sid": al[role]}:
+                rec.violation("corrupt_sidecar_read_without_sid_entry_is_not_empty", dict(c, sid=al[role]), repr(obs["reads_noenc"].get(role)))
+        for s, recs in obs["records"].items():
+            found = obs["found"].get(s) or []
+            if sorted(str(d.get("sid")) for d in recs) != sorted(found):
+                rec.violation("records_do_not_carry_the_found_sids_with_corrupt_sidecar", dict(c, search=s),
+                              "records %r for found %r" % ([d.get("sid") for d in recs], found))
+                continue
+            base_by_sid = {d.get("sid"): d for d in base["records"].get(s, [])}
+            for d in recs:
+                exp = {"sid": d["sid"]} if d["sid"] in corrupt_sids else base_by_sid.get(d["sid"])
+                if d != exp:
+                    rec.violation("record_differs_with_corrupt_sidecar", dict(c, search=s, sid=d["sid"]), "%r expected %r" % (d, exp))
         for role in al:
-            if role in ("F1", "F2"):
+            if role in corrupt_roles:
                 continue
             if obs["reads"].get(role) != base["reads"].get(role):
                 rec.violation("corrupt_sidecar_changed_other_sid", dict(c, other=role), "%r vs %r" % (obs["reads"].get(role), base["reads"].get(role)))
